@@ -18,6 +18,9 @@ var props = map[string]func(*Ctx){
 	"C02": propC02,
 	"C03": propC03,
 	"C05": propC05,
+	"C06": propC06,
+	"C07": propC07,
+	"C09": propC09,
 	"C10": propC10,
 	"C11": propC11,
 	"C12": propC12,
